@@ -60,6 +60,10 @@ impl TryFrom<DateTime<Utc>> for crate::Instant {
             .try_into()
             .map_err(|_| TimeError::InvalidTime)?;
         let nanos = time.timestamp_subsec_nanos();
+        if nanos >= 1_000_000_000 {
+            // a leap second has no representation as an Instant
+            return Err(TimeError::InvalidTime);
+        }
         Ok(crate::Instant { seconds, nanos })
     }
 }
